@@ -2111,7 +2111,7 @@ fn nd_variant(rng: &mut Rng, mid: &str, kind: usize) -> Option<String> {
           // both digits of one octet
           let p = pos[rng.usize(pos.len())];
           let start = if m[p - 1] == b'%' { p } else { p - 1 };
-          for i in start..start + 2 {
+          for i in start..(start + 2).min(m.len()) {
             if m[i].is_ascii_alphabetic() {
               nd_toggle(&mut m, i);
             }
@@ -2315,7 +2315,7 @@ fn neardup_section(cx: &mut Ctx, args: &Args, rng: &mut Rng, scale: u64, thoroug
       nd_run_list(cx, rng, &table, &strs, fls, scale >= 1000);
     }
   }
-  let cases = (if scale < 100 { 4 } else { (if thorough { 96_000 } else { 1_600 }) * scale / 1000 }) / nshards + 1;
+  let cases = (if scale < 100 { 24 } else { (if thorough { 96_000 } else { 1_600 }) * scale / 1000 }) / nshards + 1;
   for _ in 0..cases {
     run_neardups(cx, rng, &flavours);
   }
